@@ -19,6 +19,8 @@ import tempfile
 
 from harness.fw import REPO, VERIF, Check, Driver, ToolFailure
 
+PINS = [("androguard/misc.py", "clean_file_name")]
+
 RESERVED = '<>:"/\\|?*'
 NAMES = ["CON", "PRN", "AUX", "NUL"] + ["COM%d" % i for i in range(10)] + ["LPT%d" % i for i in range(10)]
 
@@ -241,24 +243,112 @@ def listing(dirpart):
     return out
 
 
+def make_tree(tree):
+    """tree: [["dir", path] | ["file", path] | ["link", path, target]] relative to the working directory"""
+    for op in tree:
+        kind, path = op[0], op[1]
+        try:
+            if kind == "dir":
+                os.makedirs(path, exist_ok=True)
+            elif kind == "file":
+                touch(path)
+            elif kind == "link":
+                os.symlink(op[2], path)
+        except OSError:
+            pass
+
+
+def oracle_dirs(filename, unique, result):
+    """the two file-system conditions of the statement, by what the paths DENOTE (symlinks, '..' resolved by the kernel)"""
+    bad = []
+    d0, d1 = os.path.dirname(filename) or ".", os.path.dirname(result) or "."
+    try:
+        if os.path.exists(d0):
+            if not (os.path.exists(d1) and os.path.samefile(d0, d1)):
+                bad.append("denotes-a-different-directory")
+        elif os.path.dirname(filename) != os.path.dirname(result):
+            bad.append("different-directory")
+        if unique and os.path.lexists(result):
+            bad.append("names-an-existing-file")
+    except ValueError:
+        pass
+    return bad
+
+
 def run_case(fn, scratch, case):
     """case: {"name": [code points of the whole path], "unique": bool, "replace": [code points],
-              "files": [[code points] ...] files to create first (relative to the working directory)}
+              "files": [[code points] ...] files to create first (relative to the working directory),
+              "tree": optional directory/symlink/file layout made before, "abs": prefix the path with the working directory}
     returns (canonical reply, raw result, files the directory held at call time, violated conditions)"""
     filename, replace = from_cps(case["name"]), from_cps(case["replace"])
     w = scratch.fresh()
     try:
+        make_tree(case.get("tree", []))
         for f in case.get("files", []):
             touch(from_cps(f))
+        if case.get("abs"):
+            filename = os.path.join(w, filename)
         dirpart = os.path.split(filename)[0]
         files = listing(dirpart) if case["unique"] else []
         reply, r = canon_clean(fn, filename, case["unique"], replace)
         bad = oracle(filename, case["unique"], r) if r is not None else []
+        if r is not None and "tree" in case:
+            bad += [b for b in oracle_dirs(filename, case["unique"], r) if b not in bad]
         if reply == "hang":
             bad = ["does-not-return (uniqueness loop still running after 10 s with %d files in the directory)" % len(files)]
-        return reply, r, files, bad
+        return reply, r, files, bad, filename
     finally:
         scratch.done(w)
+
+
+# ------------------------------------------------------------------ directory shapes (deterministic)
+SHAPE_TREE = [["dir", "real/sub"], ["dir", "work/plain"], ["dir", "other"],
+              ["link", "work/link", "../real/sub"],          # work/link -> real/sub : work/link/.. is real, lexically work
+              ["link", "work/flat", "plain"],                # link to a sibling: physical and lexical parent agree
+              ["link", "work/up", ".."],                     # work/up -> the working directory itself
+              ["link", "work/dangling", "nowhere"]]
+# (directory part, the directory it DENOTES or None, the directory a purely lexical normalisation gives)
+SHAPE_DIRS = [
+    ("work/link/..", "real", "work"), ("work/link/../", "real", "work"), ("work/link/..//", "real", "work"),
+    ("work/link/../.", "real", "work"), ("work/link/./..", "real", "work"), ("./work/link/..", "real", "work"),
+    ("work//link/..", "real", "work"), ("work/link/../../work/link/..", "real", "work"),
+    ("work/link/../sub/..", "real", "work"), ("other/../work/link/..", "real", "work"),
+    ("work/link", "real/sub", "work/link"), ("work/link/", "real/sub", "work/link"), ("work/link/.", "real/sub", "work/link"),
+    ("work/link/../sub", "real/sub", "work/sub"),
+    ("work/plain/..", "work", "work"), ("work/plain/../", "work", "work"), ("work/plain/../plain", "work/plain", "work/plain"),
+    ("work/flat/..", "work", "work"), ("work/flat", "work/plain", "work/flat"),
+    ("work/up/real", "real", "work/up/real"), ("work/up/../real", None, "work/real"), ("work/up/..", "..", "work"),
+    ("work/missing/..", None, "work"), ("work/missing/../plain", None, "work/plain"), ("missing/..", None, "."),
+    ("work/dangling/..", None, "work"),
+    ("work", "work", "work"), ("work/", "work", "work"), ("work/.", "work", "work"), ("", ".", "."), (".", ".", "."),
+    ("real/sub/../../work", "work", "work"), ("real/sub/..", "real", "real"),
+]
+SHAPE_NAMES = ["report.txt", "noext", "a" * 300 + ".txt", "x. "]
+
+
+def shape_cases(fn, scratch):
+    """every directory shape x name x absolute/relative x where the colliding files are put:
+    nowhere / in the directory the path DENOTES / in the lexically normalised directory / in both; chains of 1 and 3"""
+    out = []
+    for dpart, phys, lex in SHAPE_DIRS:
+        for name in SHAPE_NAMES:
+            # the names the REAL function hands out one after the other in a plain directory
+            chain = [os.path.basename(m) for m in build_collisions(fn, scratch, name, 3)]
+            for absolute in (False, True):
+                for where in ("none", "phys", "lex", "both"):
+                    for k in (1, 3):
+                        if where == "none" and k == 3:
+                            continue
+                        tree = [list(x) for x in SHAPE_TREE]
+                        for base in ([phys] if where in ("phys", "both") else []) + ([lex] if where in ("lex", "both") else []):
+                            if base is None or base == "..":
+                                continue
+                            for c in chain[:k]:
+                                tree.append(["file", os.path.join(base, c)])
+                        out.append({"name": cps((dpart + "/" if dpart and not dpart.endswith("/") else dpart) + name),
+                                    "unique": True, "replace": cps("_"), "files": [], "tree": tree, "abs": absolute,
+                                    "shape": [dpart, where, k]})
+    return out
 
 
 def build_collisions(fn, scratch, filename, k):
@@ -296,6 +386,12 @@ def report(ck, case, bad, reply):
 
 def run(ck: Check):
     rng = ck.rng
+    ck.pins_changed(PINS)
+
+    def size(q, t):
+        """quick size unless thorough tier or escalated (a changed clean_file_name gets the thorough sizes);
+        once a failing input is on record the verdict is settled and the quick size is enough"""
+        return q if ck.quick and (not ck.escalated or ck.failures) else t
     ok_gen = ck.run_gen("paths")
     ck.prove(exes=["drv_C38"])
     try:
@@ -310,61 +406,29 @@ def run(ck: Check):
                "basenames of length 0..600 (clusters at 0..12, 110..120, 222..240) over control, reserved, space, dot, "
                "ASCII, BMP, astral characters, with/without extension (extension lengths 0..300, boundary 113..116, "
                "228..230), reserved device names, in directories '', d, d/, d//, ./d, d/e/.., //d …, unique on/off, "
-               "0..13 colliding files made by the real function itself; oracle-only: names with lone surrogates. "
+               "0..13 colliding files made by the real function itself; oracle-only: names with lone surrogates; directory "
+               "shapes: every combination of 33 directory parts (through a symlinked directory then '..', '.', '//', "
+               "trailing slash, '..' after a real directory, after a link to a sibling, after a missing or dangling "
+               "component, relative and absolute) x 4 names x colliding files put nowhere / where the path denotes / "
+               "where its lexical normalisation points / both (judged by os.path.samefile and os.path.lexists). "
                "distinct = distinct (path, unique, replace, files); non-trivial = the cleaned name differs from the input "
                "or a collision had to be avoided")
     try:
         # ---- corpus first
         for c in corpus_cases():
-            reply, r, files, bad = run_case(fn, scratch, c)
+            reply, r, files, bad, _ = run_case(fn, scratch, c)
             ck.search_cases += 1
             if bad:
                 report(ck, c, bad, reply)
-        # ---- T: posixpath
-        n_posix = 3000 if ck.quick else 60000
-        reqs, real = [], []
-        for _ in range(n_posix):
-            p = rand_path(rng)
-            for op, f in (("split", os.path.split), ("splitext", os.path.splitext)):
-                a, b = f(p)
-                reqs.append(f"{op} {enc(p)}"); real.append(f"{enc(a)} {enc(b)}")
-            for op, f in (("basename", os.path.basename), ("dirname", os.path.dirname), ("normpath", os.path.normpath)):
-                reqs.append(f"{op} {enc(p)}"); real.append(enc(f(p)))
-            q = [rand_path(rng, 12) for _ in range(rng.randrange(0, 4))]
-            reqs.append("join " + " ".join(enc(x) for x in [p] + q)); real.append(enc(os.path.join(p, *q)))
-        if drv:
-            ck.compare("posix", reqs, real, drv.ask(reqs))
-        # ---- T: the regular expressions (pattern text from the source) against the hand compilation
-        try:
-            from gen.paths import extract
-            pats = extract(REPO)["clean_calls"]
-        except Exception:  # noqa  (already recorded by run_gen)
-            pats = None
-        if pats and drv:
-            reqs, real = [], []
-            for _ in range(4000 if ck.quick else 100000):
-                s = rand_basename(rng)[: rng.choice((3, 8, 40, 300))]
-                rep = rng.choice(["_", "_", "-", "__", "x", "é", rand_run(rng, rng.randrange(0, 3))])
-                reqs.append(f"validrep {enc(s[:3])}")
-                real.append("0" if (not s[:3] or re.search(pats[0][1], s[:3])) else "1")
-                reqs.append(f"resname {enc(s)}"); real.append("1" if re.match(pats[1][1], s) else "0")
-                reqs.append(f"subres {enc(rep)} {enc(s)}"); real.append(enc(re.sub(pats[2][1], lambda m: rep, s)))
-                reqs.append(f"subtrail {enc(rep)} {enc(s)}"); real.append(enc(re.sub(pats[3][1], lambda m: rep, s)))
-            for n in list(range(0, 130)) + [rng.randrange(0, 3000) for _ in range(50)]:
-                reqs.append(f"digits {enc('x' * n)}"); real.append(enc("{}".format(n)))
-            ck.compare("regex", reqs, real, drv.ask(reqs))
         # ---- T + S: clean_file_name
-        n_plain = 8000 if ck.quick else 300000
-        n_uniq = 1000 if ck.quick else 30000
-        n_surr = 1000 if ck.quick else 20000
         reqs, real, cases = [], [], []
         dist = {"len_0_12": 0, "len_13_229": 0, "len_230_plus": 0, "with_dot": 0, "changed": 0, "unique": 0,
-                "collisions_avoided": 0, "valueerror": 0, "surrogate_only_oracle": 0, "custom_replace": 0}
+                "collisions_avoided": 0, "valueerror": 0, "surrogate_only_oracle": 0, "custom_replace": 0,
+                "directory_shapes": 0}
         seen = set()
 
         def one(case, in_corr=True):
-            reply, r, files, bad = run_case(fn, scratch, case)
-            name = from_cps(case["name"])
+            reply, r, files, bad, name = run_case(fn, scratch, case)
             base = name[name.rfind("/") + 1:]
             dist["len_0_12" if len(base) <= 12 else "len_13_229" if len(base) < 230 else "len_230_plus"] += 1
             dist["with_dot"] += "." in base
@@ -388,6 +452,12 @@ def run(ck: Check):
             cases.append(case)
             return reply, r
 
+        # deterministic: symlinked / '..' / missing directory parts, collisions where the path points and where it
+        # only seems to point
+        for case in shape_cases(fn, scratch):
+            dist["directory_shapes"] += 1
+            one(case)
+        n_plain, n_uniq, n_surr = size(8000, 300000), size(1000, 30000), size(1000, 20000)
         for i in range(n_plain):
             d = rng.choice(DIRS) if rng.randrange(3) else ""
             name = (d + "/" if d else "") + rand_basename(rng)
@@ -420,6 +490,39 @@ def run(ck: Check):
             one({"name": cps(name), "unique": bool(rng.randrange(2)), "replace": cps("_"), "files": []}, in_corr=False)
         if drv:
             ck.compare("clean", reqs, real, drv.ask(reqs))
+        # ---- T: posixpath
+        n_posix = size(3000, 60000)
+        reqs, real = [], []
+        for _ in range(n_posix):
+            p = rand_path(rng)
+            for op, f in (("split", os.path.split), ("splitext", os.path.splitext)):
+                a, b = f(p)
+                reqs.append(f"{op} {enc(p)}"); real.append(f"{enc(a)} {enc(b)}")
+            for op, f in (("basename", os.path.basename), ("dirname", os.path.dirname), ("normpath", os.path.normpath)):
+                reqs.append(f"{op} {enc(p)}"); real.append(enc(f(p)))
+            q = [rand_path(rng, 12) for _ in range(rng.randrange(0, 4))]
+            reqs.append("join " + " ".join(enc(x) for x in [p] + q)); real.append(enc(os.path.join(p, *q)))
+        if drv:
+            ck.compare("posix", reqs, real, drv.ask(reqs))
+        # ---- T: the regular expressions (pattern text from the source) against the hand compilation
+        try:
+            from gen.paths import extract
+            pats = extract(REPO)["clean_calls"]
+        except Exception:  # noqa  (already recorded by run_gen)
+            pats = None
+        if pats and drv:
+            reqs, real = [], []
+            for _ in range(size(4000, 100000)):
+                s = rand_basename(rng)[: rng.choice((3, 8, 40, 300))]
+                rep = rng.choice(["_", "_", "-", "__", "x", "é", rand_run(rng, rng.randrange(0, 3))])
+                reqs.append(f"validrep {enc(s[:3])}")
+                real.append("0" if (not s[:3] or re.search(pats[0][1], s[:3])) else "1")
+                reqs.append(f"resname {enc(s)}"); real.append("1" if re.match(pats[1][1], s) else "0")
+                reqs.append(f"subres {enc(rep)} {enc(s)}"); real.append(enc(re.sub(pats[2][1], lambda m: rep, s)))
+                reqs.append(f"subtrail {enc(rep)} {enc(s)}"); real.append(enc(re.sub(pats[3][1], lambda m: rep, s)))
+            for n in list(range(0, 130)) + [rng.randrange(0, 3000) for _ in range(50)]:
+                reqs.append(f"digits {enc('x' * n)}"); real.append(enc("{}".format(n)))
+            ck.compare("regex", reqs, real, drv.ask(reqs))
         samples = []
         for c in cases[:: max(1, len(cases) // 3)][:3]:
             nm = from_cps(c["name"])
@@ -447,9 +550,12 @@ def replay(ck: Check, rp):
         return 0
     scratch = Scratch()
     try:
-        reply, r, files, bad = run_case(fn, scratch, c)
+        reply, r, files, bad, fname = run_case(fn, scratch, c)
     finally:
         scratch.close()
+    if c.get("tree"):
+        print("tree       :", [t for t in c["tree"]])
+        print("called with:", repr(fname))
     print("input      :", repr(from_cps(c["name"])), "unique =", c["unique"], "replace =", repr(from_cps(c["replace"])))
     print("files      :", [from_cps(f) for f in c.get("files", [])])
     print("result     :", repr(r), "" if r is None else "(name length %d)" % len(r[r.rfind('/') + 1:]))
